@@ -416,4 +416,59 @@ def rule_g(ctx: Ctx) -> None:
                 '`… = converter.map_qname(child.tag)`, which is dominated by set_xmlns_context(child, …).')
 
 
-RULES = [rule_a, rule_b, rule_c, rule_d, rule_e, rule_f, rule_g]
+def _prefix_encoding(e: ast.AST):
+    """the prefix variable when ``e`` computes the reverse-map value of a prefix ('' for the default prefix, 'p:' otherwise) in one of
+    the accepted spellings; '' for the constant ''; None otherwise."""
+    def plus_colon(x):
+        if isinstance(x, ast.BinOp) and isinstance(x.op, ast.Add) and isinstance(x.right, ast.Constant) and x.right.value == ':' and isinstance(x.left, ast.Name):
+            return x.left.id
+        if isinstance(x, ast.JoinedStr) and len(x.values) == 2 and isinstance(x.values[0], ast.FormattedValue) and isinstance(x.values[0].value, ast.Name) \
+                and isinstance(x.values[1], ast.Constant) and x.values[1].value == ':':
+            return x.values[0].value.id
+        return None
+    if isinstance(e, ast.Constant) and e.value == '':
+        return ''
+    if isinstance(e, ast.BoolOp) and isinstance(e.op, ast.And) and len(e.values) == 2 and isinstance(e.values[0], ast.Name) and plus_colon(e.values[1]) == e.values[0].id:
+        return e.values[0].id
+    if isinstance(e, ast.IfExp):
+        t, neg = e.test, False
+        if isinstance(t, ast.UnaryOp) and isinstance(t.op, ast.Not):
+            t, neg = t.operand, True
+        a, b = (e.orelse, e.body) if neg else (e.body, e.orelse)
+        if isinstance(t, ast.Name) and plus_colon(a) == t.id and isinstance(b, ast.Constant) and b.value == '':
+            return t.id
+    return None
+
+
+def rule_h(ctx: Ctx) -> None:
+    """One encoding of the reverse map: `_reverse[uri]` is '' for the default prefix and 'p:' for a named one.  Every value stored
+    into it and every value it is compared with is computed that way - a site that spells the default prefix as ':' never matches, so
+    the reverse entry of a rebound default namespace is never released."""
+    rule = 'C17.h'
+    c = ctx.idx.cls(NM)
+    n = 0
+    for f in c.methods.values():
+        for x in walk_no_nested(f.node):
+            sites = []
+            if isinstance(x, ast.Assign) and len(x.targets) == 1 and isinstance(x.targets[0], ast.Subscript) and text(x.targets[0].value) == 'self._reverse':
+                sites.append(('stored into', x.value))
+            elif isinstance(x, ast.Compare) and len(x.ops) == 1 and isinstance(x.ops[0], (ast.Eq, ast.NotEq)):
+                l, r = x.left, x.comparators[0]
+                for a_, b_ in ((l, r), (r, l)):
+                    ta = text(a_)
+                    if ta.startswith('self._reverse.get(') or ta.startswith('self._reverse['):
+                        sites.append(('compared with', b_))
+            for kind, v in sites:
+                n += 1
+                enc = _prefix_encoding(v)
+                ok = enc is not None
+                ctx.ob(rule, f'NamespaceMapper.{f.name}: the value {kind} the reverse map, `{text(v)[:40]}`, is the reverse-map encoding of a prefix', f.loc(x), ok,
+                       '' if ok else f'`{text(v)}` gives ":" for the default prefix where every other site uses "": rebinding a default namespace that is also bound to a named '
+                       'prefix leaves its reverse entry pointing at the default prefix, so {urn:a}e is decoded as the unprefixed key `e` inside an element that declares another '
+                       'default namespace', key=f'NamespaceMapper.{f.name}|reverse-encoding|{kind}|{text(v)[:30]}')
+    ctx.floor(rule, 'values stored into / compared with the reverse map', n, 5)
+    ctx.explain('C17.h: sibling agreement of every site that produces a reverse-map value (stores and comparisons) on the encoding `p and p + \':\'` (accepted spellings '
+                'enumerated in _prefix_encoding).')
+
+
+RULES = [rule_a, rule_b, rule_c, rule_d, rule_e, rule_f, rule_g, rule_h]
